@@ -95,19 +95,11 @@ def run(ctx):
         for k in ("dropped/0", "served/405", "served/401", "served/200"):
             if not by[k]:
                 raise vflib.InfraError("vacuity: no table row with outcome " + k)
-        # keep rows of one allow list together (one server start per allow list and shard)
+        # rows of one allow list stay together (one server start per allow list); one harness process per group of allow lists
         nproc = max(1, min(vflib.free_cpus(), 4))
         allows = sorted(set(x["allow"] for x in rows))
-        shard_of = {a: i % nproc for i, a in enumerate(allows)}
-        ordered = []
-        per_shard = [[x for x in rows if shard_of[x["allow"]] == k] for k in range(nproc)]
-        for i in range(max(len(s) for s in per_shard)):
-            for k in range(nproc):
-                ordered.append(per_shard[k][i] if i < len(per_shard[k]) else None)
-        # run_harness deals lines round-robin: position i goes to shard i % nproc
-        ordered = [x for x in ordered]
-        lines = [json.dumps(x) if x is not None else "" for x in ordered]
-        res3 = ctx.run_harness(binary, "auth", [l for l in lines], nproc=nproc, name="auth") if all(lines) else run_auth_unbalanced(ctx, binary, per_shard)
+        per_shard = [[x for x in rows if allows.index(x["allow"]) % nproc == k] for k in range(nproc)]
+        res3 = run_auth(ctx, binary, [s for s in per_shard if s])
         ctx.evaluations += int(res3["summary"]["tests"]); ctx.traces += int(res3["summary"]["tests"])
         ctx.extra["auth_rows_by_outcome"] = dict(by)
         ctx.sample(dict(auth_row=rows[len(rows) // 2]))
@@ -124,13 +116,13 @@ def run(ctx):
                            "replayed on the real parser; non-trivial = distinct paths with at least two reads, and served rows of the access table")
 
 
-def run_auth_unbalanced(ctx, binary, per_shard):
-    """Shards of different length: run them one after the other, each in its own process."""
+def run_auth(ctx, binary, shards):
+    """One harness process per shard, side by side; the results are merged (indices refer to the concatenation of the shards)."""
+    import concurrent.futures
+    with concurrent.futures.ThreadPoolExecutor(max_workers=len(shards)) as ex:
+        results = list(ex.map(lambda kv: ctx.run_harness(binary, "auth", kv[1], nproc=1, name="auth%d" % kv[0]), enumerate(shards)))
     total = dict(mismatches=[], aborts=[], deviations=[], summary=collections.Counter(), infos=[], traces=[], lines=[], nproc=1)
-    for k, rows in enumerate(per_shard):
-        if not rows:
-            continue
-        r = ctx.run_harness(binary, "auth", rows, nproc=1, name="auth%d" % k)
+    for r in results:
         off = len(total["lines"])
         for key in ("mismatches", "aborts"):
             for m in r[key]:
